@@ -37,7 +37,7 @@ Print Assumptions factory_calls_bounded_partial.
    either reaches S3 *)
 Theorem factory_once_refuted : forall data,
   let n := [65] in    (* "A": not a fixed-offset name *)
-  let s := exec data [Start 0 n; Start 1 n] in
+  let s := exec data [Start 0%nat n; Start 1%nat n] in
   entries_for (ls_log s) n = 2%nat /\ overlapping (ls_log s) = true.
 Proof. intros data. vm_compute. split; reflexivity. Qed.
 Print Assumptions factory_once_refuted.
